@@ -13,11 +13,14 @@
      "checked tet add_cell must reject four triangles that are not a tetrahedron", Example C15_two_pillows_rejected); as an
      invariant of ALL additions it stays refuted, because the UNCHECKED add_cell stores whatever four triangles it is
      given (C15_four_distinct_vertices_unchecked_refuted).
+   * property values across collapse_edge: the statement that halfedge values follow is REFUTED (known finding
+     "collapse-props-parity", witness = its replay); proved: one element per slot in every property array in every mode,
+     vertex / mesh property arrays untouched in deferred mode; the rest is judged by the token oracle of the harness.
    * collapse_edge: shape in deferred and in immediate fast mode, returned handle in deferred mode; the characterisation
      of the resulting cell set (and the slow immediate mode) is carried by the correspondence and the brute-force oracle
      (harness/run_tet.cc). *)
 From Coq Require Import ZArith List.
-From OVM Require Import Base.ListX Gen.TetLabels Kernel.State Kernel.Ops Mesh.TetModel Mesh.TetTopoModel Mesh.TetProofs Mesh.TetTopoProofs.
+From OVM Require Import Base.ListX Gen.TetLabels Kernel.State Kernel.Ops Kernel.Sizes Mesh.TetModel Mesh.TetTopoModel Mesh.TetProofs Mesh.TetTopoProofs.
 Import ListNotations.
 
 (* ---- shape *)
@@ -141,6 +144,30 @@ Theorem C15_collapse_immediate_fast_partial : forall s he s' r, tet_shape s -> d
   collapse_edge s he = Some (s', r) -> tet_shape s' /\ deferred s' = false /\ fast s' = true.
 Proof. exact collapse_edge_immediate_fast. Qed.
 Print Assumptions C15_collapse_immediate_fast_partial.
+
+(* ---- property values across collapse_edge (KNOWN_FINDINGS "collapse-props-parity").
+   full statement (refuted): forall s he s' r, collapse_edge s he = Some (s', r) -> he_values_follow s s' he
+   ("the halfedge values of the rebuilt tets follow their halfedges"): collapse_edge swaps once per rebuilt tet, so
+   the value of a halfedge used by two rebuilt tets is dropped *)
+Theorem C15_collapse_props_refuted :
+  dshape parity_before /\ collapse_edge parity_before 0 = Some (parity_after, 1) /\
+  ~ he_values_follow parity_before parity_after 0 /\
+  find_halfedge parity_after 1 3 = Some 20 /\ phe_val parity_after 0 20 = phe_val parity_before 0 2 /\
+  find_halfedge parity_after 1 2 = Some 23 /\ phe_val parity_after 0 23 = 0%Z /\ phe_val parity_before 0 7 = 107%Z.
+Proof. exact collapse_props_refuted. Qed.
+Print Assumptions C15_collapse_props_refuted.
+
+(* what does hold: sizes (every deletion mode) ... *)
+Theorem C15_collapse_props_sizes_partial : forall s he s' r,
+  szd s -> he_from s he < nv s -> collapse_edge s he = Some (s', r) -> szd s'.
+Proof. exact collapse_edge_sizes. Qed.
+Print Assumptions C15_collapse_props_sizes_partial.
+
+(* ... and, in deferred mode, vertex and mesh property arrays are not touched at all *)
+Theorem C15_collapse_props_vertex_partial : forall s he s' r,
+  tet_shape s /\ deferred s = true -> collapse_edge s he = Some (s', r) -> pv s' = pv s /\ pm s' = pm s.
+Proof. exact collapse_edge_vertex_props_deferred. Qed.
+Print Assumptions C15_collapse_props_vertex_partial.
 
 (* ---- non-vacuity *)
 Example C15_inside_history_with_removals :
